@@ -89,7 +89,21 @@ theorem stopInv_step {s s' : St} {a : Act} (hi : StopInv s) (hs : step s a = som
   | ctxSeen i => frame_case hi hs
   | startupTimeoutFire => frame_case hi hs
   | mainStart => frame_case hi hs
-  | mainLaunch i => frame_case hi hs
+  | mainLaunch i =>
+    -- the guard `once = fresh` gives `sd = idle`, so the WaitGroup-misuse flag stays false
+    simp only [step] at hs
+    split at hs
+    · split at hs
+      · rename_i hfresh
+        simp only [Option.some.injEq] at hs
+        subst hs
+        have hidle := hi.fresh.mp (by simpa using hfresh)
+        refine stopInv_frame hi rfl rfl rfl rfl rfl ?_
+        simp [hidle]
+      · simp only [Option.some.injEq] at hs
+        subst hs
+        exact stopInv_frame hi rfl rfl rfl rfl rfl rfl
+    · simp at hs
   | gateWake i => frame_case hi hs
   | gateErr i => frame_case hi hs
   | gateTimeout i => frame_case hi hs
